@@ -23,8 +23,8 @@ pub const ITEMS: usize = 3;
 // backends
 // ------------------------------------------------------------------------------------------------
 pub trait Backend: 'static {
-    type K: Clone + Eq + Hash + Ord + Debug + 'static;
-    type T: TombstoneSet<Self::K> + Default + Clone + IntoIterator<Item = Self::K> + FromIterator<Self::K> + 'static;
+    type K: Clone + Eq + Hash + Ord + Debug + Send + Sync + 'static;
+    type T: TombstoneSet<Self::K> + Default + Clone + IntoIterator<Item = Self::K> + FromIterator<Self::K> + Send + Sync + 'static;
     const NAME: &'static str;
     fn key(i: usize) -> Self::K;
     fn idx(k: &Self::K) -> usize;
@@ -155,7 +155,7 @@ fn erase_bottoms(v: Variant, r: &Reveal) -> Reveal {
 // ------------------------------------------------------------------------------------------------
 // real objects behind a small object-safe facade
 // ------------------------------------------------------------------------------------------------
-pub trait Obj {
+pub trait Obj: Send + Sync {
     fn merge_code(&mut self, code: usize);
     fn reveal(&self) -> Reveal;
     fn dup(&self) -> Box<dyn Obj>;
@@ -164,8 +164,23 @@ pub trait Obj {
     fn convert_roundtrip(&self) -> (Reveal, Reveal);
 }
 
+/// Replica universes are built once per (type, variant) and cloned on use (building an FST costs
+/// ~100us because every `fst::SetBuilder` allocates a large registry).
+fn cached<T: std::any::Any + Send + Sync>(key: String, mk: impl FnOnce() -> T) -> Arc<T> {
+    use std::any::Any;
+    use std::sync::Mutex;
+    static CACHE: Mutex<Vec<(String, Arc<dyn Any + Send + Sync>)>> = Mutex::new(Vec::new());
+    let mut c = CACHE.lock().unwrap();
+    if let Some((_, a)) = c.iter().find(|(k, _)| *k == key) {
+        return a.clone().downcast::<T>().expect("cache type");
+    }
+    let a: Arc<T> = Arc::new(mk());
+    c.push((key, a.clone()));
+    a
+}
+
 type SetT<B> = SetUnionWithTombstones<HashSet<<B as Backend>::K>, <B as Backend>::T>;
-struct SetObj<B: Backend>(SetT<B>);
+struct SetObj<B: Backend>(SetT<B>, Arc<Vec<SetT<B>>>);
 fn set_replica<B: Backend>(code: usize) -> SetT<B> {
     let d = Variant::Set.digits(code);
     SetUnionWithTombstones::new(
@@ -181,7 +196,7 @@ impl<B: Backend> Obj for SetObj<B>
 where
     SetT<B>: Merge<SetT<B>> + Clone,
 {
-    fn merge_code(&mut self, code: usize) { self.0.merge(set_replica::<B>(code)); }
+    fn merge_code(&mut self, code: usize) { self.0.merge(self.1[code].clone()); }
     fn reveal(&self) -> Reveal {
         let r = set_reveal::<B>(&self.0);
         let (s, t) = self.0.as_reveal_ref();
@@ -192,7 +207,7 @@ where
         }
         r
     }
-    fn dup(&self) -> Box<dyn Obj> { Box::new(SetObj::<B>(self.0.clone())) }
+    fn dup(&self) -> Box<dyn Obj> { Box::new(SetObj::<B>(self.0.clone(), self.1.clone())) }
     fn backend(&self) -> &'static str { B::NAME }
     fn convert_roundtrip(&self) -> (Reveal, Reveal) {
         let h: SetUnionWithTombstones<HashSet<B::K>, HashSet<B::K>> = LatticeFrom::lattice_from(self.0.clone());
@@ -203,7 +218,7 @@ where
     }
 }
 
-pub trait Val: Clone + 'static {
+pub trait Val: Clone + Send + Sync + 'static {
     fn mk(elems: &[u8]) -> Self;
     fn elems(&self) -> Vec<u8>;
 }
@@ -216,7 +231,7 @@ impl Val for Max<u8> {
     fn elems(&self) -> Vec<u8> { vec![*self.as_reveal_ref()] }
 }
 type MapT<B, V> = MapUnionWithTombstones<HashMap<<B as Backend>::K, V>, <B as Backend>::T>;
-struct MapObj<B: Backend, V: Val>(MapT<B, V>, Variant);
+struct MapObj<B: Backend, V: Val>(MapT<B, V>, Variant, Arc<Vec<MapT<B, V>>>);
 fn map_replica<B: Backend, V: Val>(v: Variant, code: usize) -> MapT<B, V> {
     let d = v.digits(code);
     MapUnionWithTombstones::new(
@@ -234,7 +249,7 @@ where
     MapUnionWithTombstones<HashMap<B::K, V>, HashSet<B::K>>: LatticeFrom<MapT<B, V>>,
     MapT<B, V>: LatticeFrom<MapUnionWithTombstones<HashMap<B::K, V>, HashSet<B::K>>>,
 {
-    fn merge_code(&mut self, code: usize) { self.0.merge(map_replica::<B, V>(self.1, code)); }
+    fn merge_code(&mut self, code: usize) { self.0.merge(self.2[code].clone()); }
     fn reveal(&self) -> Reveal {
         let r = map_reveal::<B, V>(&self.0);
         let t = self.0.as_reveal_ref().1;
@@ -244,7 +259,7 @@ where
         }
         r
     }
-    fn dup(&self) -> Box<dyn Obj> { Box::new(MapObj::<B, V>(self.0.clone(), self.1)) }
+    fn dup(&self) -> Box<dyn Obj> { Box::new(MapObj::<B, V>(self.0.clone(), self.1, self.2.clone())) }
     fn backend(&self) -> &'static str { B::NAME }
     fn convert_roundtrip(&self) -> (Reveal, Reveal) {
         let h: MapUnionWithTombstones<HashMap<B::K, V>, HashSet<B::K>> = LatticeFrom::lattice_from(self.0.clone());
@@ -262,7 +277,8 @@ pub fn triple(v: Variant, code: Option<usize>) -> Vec<Box<dyn Obj>> {
     where
         SetT<B>: Merge<SetT<B>> + Clone + Default,
     {
-        Box::new(SetObj::<B>(code.map(set_replica::<B>).unwrap_or_default()))
+        let uni = cached(format!("set/{}", B::NAME), || (0..Variant::Set.universe()).map(set_replica::<B>).collect::<Vec<_>>());
+        Box::new(SetObj::<B>(code.map(|c| uni[c].clone()).unwrap_or_default(), uni))
     }
     fn map<B: Backend, V: Val>(v: Variant, code: Option<usize>) -> Box<dyn Obj>
     where
@@ -270,7 +286,8 @@ pub fn triple(v: Variant, code: Option<usize>) -> Vec<Box<dyn Obj>> {
         MapUnionWithTombstones<HashMap<B::K, V>, HashSet<B::K>>: LatticeFrom<MapT<B, V>>,
         MapT<B, V>: LatticeFrom<MapUnionWithTombstones<HashMap<B::K, V>, HashSet<B::K>>>,
     {
-        Box::new(MapObj::<B, V>(code.map(|c| map_replica::<B, V>(v, c)).unwrap_or_default(), v))
+        let uni = cached(format!("map/{}/{}", B::NAME, v.name()), || (0..v.universe()).map(|c| map_replica::<B, V>(v, c)).collect::<Vec<_>>());
+        Box::new(MapObj::<B, V>(code.map(|c| uni[c].clone()).unwrap_or_default(), v, uni))
     }
     match v {
         Variant::Set => vec![set::<HashB>(code), set::<RoaringB>(code), set::<FstB>(code)],
@@ -379,12 +396,23 @@ fn confirm(st: &mut Stats, section: &str, v: Variant, start: Option<usize>, h: &
 // ------------------------------------------------------------------------------------------------
 // section A: BFS (state = the three real objects + model; dedup on full reveal + model)
 // ------------------------------------------------------------------------------------------------
-pub fn bfs(v: Variant, depth: usize) -> (Stats, Value) {
+struct St {
+    objs: Vec<Box<dyn Obj>>,
+    m: Model,
+    start: usize,
+    h: Vec<usize>,
+}
+struct LevelOut {
+    st: Stats,
+    next: Vec<(St, Reveal)>,
+    fails: Vec<(usize, Vec<usize>, String)>,
+}
+
+pub fn bfs(v: Variant, depth: usize, threads: usize) -> (Stats, Value) {
     let mut st = Stats::new();
     let u = v.universe();
     let mut visited: BTreeSet<(Reveal, Model)> = BTreeSet::new();
-    struct S { objs: Vec<Box<dyn Obj>>, m: Model, start: usize, h: Vec<usize> }
-    let mut frontier: Vec<S> = vec![];
+    let mut frontier: Vec<St> = vec![];
     let mut levels = vec![];
     for c in 0..u {
         st.eval(); st.transition(); st.trace();
@@ -394,7 +422,7 @@ pub fn bfs(v: Variant, depth: usize) -> (Stats, Value) {
         match judge(v, &objs, &m).and_then(|r| judge_conversions(v, &objs, &r).map(|_| r)) {
             Ok(r) => {
                 st.outcome(&(v.name(), &r));
-                if visited.insert((r, m.clone())) { st.state(); frontier.push(S { objs, m, start: c, h: vec![] }); }
+                if visited.insert((r, m.clone())) { st.state(); frontier.push(St { objs, m, start: c, h: vec![] }); }
             }
             Err(e) => confirm(&mut st, "bfs", v, Some(c), &[], &e),
         }
@@ -405,31 +433,57 @@ pub fn bfs(v: Variant, depth: usize) -> (Stats, Value) {
     for d in 1..=depth {
         if !st.violations.is_empty() { break; }
         if frontier.is_empty() { closed = true; break; }
-        let mut next = vec![];
-        for s in &frontier {
-            let before = s.objs[0].reveal();
-            for c in 0..u {
-                st.eval(); st.transition(); st.trace();
-                let mut objs: Vec<Box<dyn Obj>> = s.objs.iter().map(|o| o.dup()).collect();
-                let mut m = s.m.clone();
-                m.absorb(v, c);
-                let mut h = s.h.clone();
-                h.push(c);
-                let res = step_all(&mut objs, c).and_then(|_| judge(v, &objs, &m)).and_then(|r| judge_conversions(v, &objs, &r).map(|_| r));
-                match res {
-                    Ok(r) => {
-                        if r != before { st.nontrivial(&(v.name(), &before, c)); }
-                        st.outcome(&(v.name(), &r));
-                        st.sample(|| json!({"variant": v.name(), "history": show_history(v, Some(s.start), &h), "reveal": format!("{r:?}")}));
-                        if visited.insert((r, m.clone())) { st.state(); next.push(S { objs, m, start: s.start, h }); }
-                    }
-                    Err(e) => {
-                        if st.violations.len() < 3 { confirm(&mut st, "bfs", v, Some(s.start), &h, &e); }
+        let fr = Arc::new(std::mem::take(&mut frontier));
+        let chunk = fr.len().div_ceil((threads * 4).min(fr.len()).max(1));
+        let nshards = fr.len().div_ceil(chunk);
+        let fr2 = fr.clone();
+        let work = move |i: usize, beat: &Beat| -> LevelOut {
+            let mut out = LevelOut { st: Stats::new(), next: vec![], fails: vec![] };
+            for s in &fr2[i * chunk..((i + 1) * chunk).min(fr2.len())] {
+                let before = s.objs[0].reveal();
+                for c in 0..u {
+                    beat.tick();
+                    out.st.eval(); out.st.transition(); out.st.trace();
+                    let mut objs: Vec<Box<dyn Obj>> = s.objs.iter().map(|o| o.dup()).collect();
+                    let mut m = s.m.clone();
+                    m.absorb(v, c);
+                    let mut h = s.h.clone();
+                    h.push(c);
+                    match step_all(&mut objs, c).and_then(|_| judge(v, &objs, &m)) {
+                        Ok(r) => {
+                            if r != before { out.st.nontrivial(&(v.name(), &before, c)); }
+                            out.st.outcome(&(v.name(), &r));
+                            out.st.sample(|| json!({"variant": v.name(), "history": show_history(v, Some(s.start), &h), "reveal": format!("{r:?}")}));
+                            out.next.push((St { objs, m, start: s.start, h }, r));
+                        }
+                        Err(e) => { if out.fails.len() < 2 { out.fails.push((s.start, h, e)); } }
                     }
                 }
             }
+            out
+        };
+        match guard::run(nshards, threads, Arc::new(work)) {
+            Outcome::Done(outs) => {
+                let mut fails = vec![];
+                for o in outs {
+                    st.merge(o.st);
+                    fails.extend(o.fails);
+                    for (s, r) in o.next {
+                        if visited.contains(&(r.clone(), s.m.clone())) { continue; }
+                        // LatticeFrom round trips are judged once per distinct state (path independent)
+                        match judge_conversions(v, &s.objs, &r) {
+                            Ok(()) => { visited.insert((r, s.m.clone())); st.state(); frontier.push(s); }
+                            Err(e) => fails.push((s.start, s.h.clone(), e)),
+                        }
+                    }
+                }
+                for (start, h, e) in fails.into_iter().take(3) {
+                    confirm(&mut st, "bfs", v, Some(start), &h, &e);
+                }
+            }
+            Outcome::Hang { .. } => machinery(format!("C05 bfs {}: a shard exceeded the step budget", v.name())),
+            Outcome::Panic(p) => machinery(format!("C05 bfs {}: harness worker panicked: {p}", v.name())),
         }
-        frontier = next;
         explored = d;
         levels.push(frontier.len());
     }
@@ -504,7 +558,7 @@ pub fn orders(v: Variant, k: usize, threads: usize) -> (Stats, Value) {
         out
     };
     let mut st = Stats::new();
-    let mut multisets = 0usize;
+    let multisets;
     match guard::run(u, threads, Arc::new(work)) {
         Outcome::Done(outs) => {
             let mut finals: HashMap<Vec<u16>, (u64, Vec<u16>)> = HashMap::new();
@@ -602,13 +656,14 @@ pub fn api_show(h: &[(usize, usize)]) -> String {
     h.iter().map(|&(k, m)| format!("{}({:?})", ["from_iter", "extend", "union_with"][k], messy(m))).collect::<Vec<_>>().join(" ; ")
 }
 
-pub fn api(depth: usize) -> (Stats, Value) {
+pub fn api(depth: usize, beat: &Beat) -> (Stats, Value) {
     let mut st = Stats::new();
     let n = 1usize << ITEMS;
     let mut count = 0u64;
     // all histories (no state merging): init + up to `depth` ops; 8 * 16^depth
     let mut stack: Vec<Vec<(usize, usize)>> = (0..n).map(|m| vec![(0, m)]).collect();
     while let Some(h) = stack.pop() {
+        beat.tick();
         st.eval(); st.transition(); st.trace();
         count += 1;
         match api_check(&h) {
